@@ -18,6 +18,34 @@ Inductive gsc_kind :=
 | GOracle                                               (* precision reached / user-defined: verdict comes from outside *)
 | GOr (a b : gsc_kind).
 
+(* what a user may pass as FitnessEvalLimitReached(limit, weights): None, the strategy names "equal" / "root" (WeightingStrategy is a str-Enum, so
+   the plain strings compare equal to its members), some other string, or an explicit list of per-level weights *)
+Inductive wspec := WNone | WEqual | WRoot | WOtherStr | WList (ws : list nat).
+Definition w_is_none (w : wspec) : bool := match w with WNone => true | _ => false end.
+Definition w_is_str (w : wspec) : bool := match w with WEqual | WRoot | WOtherStr => true | _ => false end.
+Definition w_is_list (w : wspec) : bool := match w with WList _ => true | _ => false end.
+Definition w_eq_equal (w : wspec) : bool := match w with WEqual => true | _ => false end.
+Definition w_eq_root (w : wspec) : bool := match w with WRoot => true | _ => false end.
+(* `w[i] = v` : IndexError (None) beyond the end, TypeError (None) on anything but a list *)
+Fixpoint list_set (l : list nat) (i v : nat) : option (list nat) :=
+  match l, i with
+  | [], _ => None
+  | _ :: r, 0 => Some (v :: r)
+  | x :: r, S j => match list_set r j v with Some r' => Some (x :: r') | None => None end
+  end.
+Definition w_setitem (w : wspec) (i v : nat) : option wspec :=
+  match w with WList l => match list_set l i v with Some l' => Some (WList l') | None => None end | _ => None end.
+Definition w_as_list (w : option wspec) : option (list nat) := match w with Some (WList l) => Some l | _ => None end.
+(* the per-level weights the machine's GEvalLimit carries for a tree of n levels (None: the call raises) *)
+Definition weights_of (n : nat) (w : wspec) : option (list nat) :=
+  match w with
+  | WList ws => Some ws
+  | WNone | WEqual => Some (repeat 1 n)
+  | WRoot => match n with 0 => None | S m => Some (1 :: repeat 0 m) end
+  | WOtherStr => None
+  end.
+Definition weights_or_nil (n : nat) (w : wspec) : list nat := match weights_of n w with Some l => l | None => [] end.
+
 Record cfg := { height : nat; kinds : list dkind; ngens : list nat; lscs : list lsc_kind; gsc : gsc_kind;
                 hib_on : bool; level_lim : option nat; maximize : bool }.
 
